@@ -7,6 +7,7 @@ import (
 	"os"
 	"sort"
 	"strings"
+	"sync"
 )
 
 type H struct {
@@ -98,6 +99,27 @@ func (h *H) Tag(t string) {
 }
 func (h *H) Reach(id string)         {}
 func (h *H) SetAllocLimit(n int)     { h.AllocLimit = n }
+
+// Go runs the functions concurrently (natively: one goroutine each, repeated a few
+// times so that the race detector of the race-enabled replay binary sees them
+// overlap). The engine runs them one after the other under its shared-state monitor.
+func (h *H) Go(fs ...func()) {
+	for round := 0; round < 4; round++ {
+		var wg sync.WaitGroup
+		for _, f := range fs {
+			wg.Add(1)
+			go func(f func()) {
+				defer wg.Done()
+				f()
+			}(f)
+		}
+		wg.Wait()
+	}
+}
+
+// AssertIndependent: decided by the engine's monitor; natively a no-op (the race
+// detector is the native oracle).
+func (h *H) AssertIndependent(id string) {}
 
 func (h *H) obs(label, v string) {
 	n := h.obsSeen[label]
